@@ -192,7 +192,8 @@ INVARIANT Exclusive
         o = core.outcome(lambda: utils.random_stager_uri(**kw))
         if o[0] != "ValueError":
             viol("random_stager_uri", "argument_check", {"kwargs": kw, "got": o})
-    bad = core.tlc_judge(ctx, "CodecIO", ioc, ev)
+    canary = {"op": "xor", "d": [1, 2, 3], "k": [1], "r": "ok", "out": [0, 3, 3]}  # last byte wrong
+    bad = core.tlc_judge(ctx, "CodecIO", ioc, ev, canary=canary)
     for i, failed in bad:
         e = ev[i]
         opn = {"xor": "xor", "nbround": "netbios_decode", "nbenc": "netbios_encode", "pack": "pack/unpack", "unpack": "pack/unpack",
